@@ -47,7 +47,7 @@
      * the Marple fast recursions (arcovar_marple, modcovar_marple) equal the least-squares solution:
        TEST only (search on the implementation against independent normal equations). *)
 Require Import Spectrum.Theory.Ops Spectrum.Theory.Sum Spectrum.Theory.Vec Spectrum.Theory.Order
-               Spectrum.Model.Corr Spectrum.Model.Ls
+               Spectrum.Model.Corr Spectrum.Model.Ls Spectrum.Model.CovarMarple
                Spectrum.Proofs.LsTheory Spectrum.Proofs.CovarTheory Spectrum.Proofs.CovarOpt Spectrum.Proofs.CovarExp Spectrum.Proofs.CovarClosed Spectrum.Proofs.CovarVdm
                Spectrum.Proofs.GaussTheory Spectrum.Proofs.CovarFinal
                Spectrum.Instances.QcC Spectrum.Instances.QcCOrd.
@@ -274,6 +274,17 @@ Example arcovar_exponentials_example :
 Proof. vm_compute. reflexivity. Qed.
 Example modcovar_exponentials_example :
   same_result (@modcovar _ qcc_ops tol4 ex_exp 2) [cz (1,0) (-1,0); cz (0,0) (-1,0)] (@zero _ qcc_ops) = true.
+Proof. vm_compute. reflexivity. Qed.
+(* NOT a theorem about the fast recursions — one executed instance of the TEST the correspondence run repeats on
+   every generated case: the Marple models return the exact least-squares coefficients and per-sample minimum *)
+Definition ediv (e : QcC) (n : nat) : QcC := @div _ qcc_ops e (@ofnat _ qcc_ops n).
+Example marple_equals_ls_instance :
+  match @arcovar _ qcc_ops tol4 ex_x 2, @arcovar_marple _ qcc_ops ex_x 2, @modcovar _ qcc_ops tol4 ex_x 2, @modcovar_marple _ qcc_ops ex_x 2 with
+  | Some (a, e), Some (af, pf, _, _), Some (a2, e2), Some (am, pm) =>
+      qcc_close_list 0%Qc (firstn 2 af) a && qcc_close 0%Qc pf (ediv e 5)
+      && qcc_close_list 0%Qc (firstn 2 am) a2 && qcc_close 0%Qc pm (ediv e2 10)
+  | _, _, _, _ => false
+  end = true.
 Proof. vm_compute. reflexivity. Qed.
 (* the abstract theorems apply to the executed instance *)
 Example applies_to_qcc a e : @arcovar _ qcc_ops tol4 ex_x 2 = Some (a, e) ->
